@@ -348,6 +348,44 @@ def extra_scenarios(ctx):
                      {"child_exit": code})
         elif code != 0:
             ctx.count("size_limit_scenario_unavailable", code)
+        # (a5) a store object that was copied or pickled is the same store: same path, same encoding
+        import copy as _copy
+        import pickle as _pickle
+        for enc in (None, "utf-8", "utf-16", "latin-1"):
+            for cls, val in ((st.TextFileStore, "h\u00e9llo\r\n"), (st.JsonFileStore, {"k": "\u00e9"})):
+                for how in ("copy.copy", "copy.deepcopy", "pickle"):
+                    orig = cls(os.path.join(d, "enc_%s_%s.dat" % (cls.__name__, enc)), encoding=enc) if enc else cls(os.path.join(d, "enc_%s_default.dat" % cls.__name__))
+                    ctx.case(("c12-copied-store", cls.__name__, enc, how))
+                    try:
+                        dup = _copy.copy(orig) if how == "copy.copy" else _copy.deepcopy(orig) if how == "copy.deepcopy" else _pickle.loads(_pickle.dumps(orig))
+                        orig.write(val)
+                        a = dup.read()
+                        dup.write(val)
+                        b = orig.read()
+                        okc = a == val and b == val
+                        det = "read %r / %r" % (a, b)
+                    except BaseException as e:      # noqa
+                        okc, det = False, "raised %s: %s" % (type(e).__name__, str(e)[:80])
+                    if not okc:
+                        ctx.fail("copied-store", "%s(encoding=%r) duplicated with %s: a value written through one object and read through the other: %s, written %r"
+                                 % (cls.__name__, enc, how, det, val), {"store": cls.__name__, "encoding": enc, "how": how})
+        # (a6) a value overwritten by another of the same size, the file keeping the same modified time (coarse clocks, cp -p):
+        # read returns what is stored now
+        for cls, v1, v2 in ((st.PickleFileStore, ("value", 1), ("value", 2)), (st.JsonFileStore, {"k": 1}, {"k": 2}), (st.TextFileStore, "abc1", "abc2"),
+                            (st.BinaryFileStore, b"abc1", b"abc2")):
+            pth = os.path.join(d, "same_%s.dat" % cls.__name__)
+            s_ = cls(pth)
+            s_.write(v1)
+            os.utime(pth, ns=(10 ** 18, 10 ** 18))
+            r1 = s_.read()
+            s_.write(v2)
+            os.utime(pth, ns=(10 ** 18, 10 ** 18))
+            r2 = cls(pth).read()
+            r3 = s_.read()
+            ctx.case(("c12-same-size-same-mtime", cls.__name__))
+            if r1 != v1 or r2 != v2 or r3 != v2:
+                ctx.fail("same-size-same-mtime", "%s: value %r overwritten by %r (same size, same modified time): reads gave %r then %r / %r"
+                         % (cls.__name__, v1, v2, r1, r2, r3), {"store": cls.__name__})
         # (b) written over existing content
         for name, store, value in (("touch", st.TouchFileStore, None), ("text", st.TextFileStore, "new"), ("binary", st.BinaryFileStore, b"new"),
                                    ("json", st.JsonFileStore, {"a": 1}), ("pickle", st.PickleFileStore, (1, 2))):
